@@ -730,6 +730,7 @@ class ExecHarness:
         self.executed: list[set] = [set() for _ in range(self.n)]
         self.rdone: list[set] = [set() for _ in range(self.n)]
         self.cur: list[Any] = [None] * self.n         # (kind, detail) of the running step
+        self.grp: list[Any] = [None] * self.n         # the event group under construction
         self.rawlog: list[list[dict]] = [[] for _ in range(self.n)]
         self.exec_begun: list[set] = [set() for _ in range(self.n)]
         self.events: list[dict] = []
@@ -812,8 +813,8 @@ class ExecHarness:
                 return "spinning" if isinstance(res.exc, fakempi.SpinDetected) else "crashed"
             return res.status
         k = (st.op or {}).get("k")
-        return {"start": "post", "exec": "exec", "waitsome": "wait", "drain": "drain"}.get(
-            k, str(k))
+        return {"start": "post", "exec": "exec", "waitsome": "wait", "drain": "drain",
+                "wait": "drain"}.get(k, str(k))
 
     def local_state(self, r: int) -> dict:
         ctx = self.ctx[r]
@@ -849,17 +850,31 @@ class ExecHarness:
         self.nchoice += 1
 
     def before_step(self, world: Any, t: tuple) -> None:
+        """Steps between two yield points are grouped into one event per
+        DistExec action: in fine grain the yields at Irecv / Isend / Wait
+        continue the group that the last model-level yield (thread start,
+        begin of a part, Waitsome, first Wait) of that rank opened."""
         r = t[0]
         lab = world.describe(t)
         self._last_label = json.dumps(lab, sort_keys=True)
-        self.cur[r] = lab
-        self.rawlog[r] = []
+        k = lab["k"]
+        g = self.grp[r]
+        cont = g is not None and (k in ("irecv", "isend")
+                                  or (k == "wait" and g["lab"]["k"] == "drain"))
+        if not cont:
+            if k == "wait":
+                lab = dict(lab, k="drain")
+            g = self.grp[r] = {"lab": lab, "raw": [], "mpi": [], "ev": None}
+            self.rawlog[r] = g["raw"]
+        self.cur[r] = g["lab"]
         self._mark = len(world.trace)
 
     def after_step(self, world: Any, r: int) -> None:
-        lab = self.cur[r]
-        raw = self.rawlog[r]
-        mpi = [e for e in world.trace[self._mark:] if e.get("rank") == r]
+        g = self.grp[r]
+        lab = g["lab"]
+        raw = g["raw"]
+        g["mpi"] += [e for e in world.trace[self._mark:] if e.get("rank") == r]
+        mpi = g["mpi"]
         k = lab["k"]
         ev: dict[str, Any] = {"rank": r, "ev": {"start": "post", "waitsome": "waitsome",
                                                "exec": "exec", "drain": "drain",
@@ -904,7 +919,19 @@ class ExecHarness:
         ev["after"] = self.local_state(r)
         if self.grain == "model":
             ev["net"] = self.net_state()
-        self.events.append(ev)
+        if g["ev"] is None:
+            g["ev"] = ev
+            self.events.append(ev)
+        else:
+            # a continued group keeps its place (the model's atomic action is
+            # taken where the group began: its sends only become visible later
+            # in reality) -- except the drain group, whose guard (every send
+            # matched) is only known to hold when its last Wait returned
+            g["ev"].clear()
+            g["ev"].update(ev)
+            if k == "drain":
+                i = next(i for i, e in enumerate(self.events) if e is g["ev"])
+                self.events.append(self.events.pop(i))
 
     # -- driver ---------------------------------------------------------------
     def run(self) -> ExecResult:
